@@ -1,10 +1,18 @@
 // C12 harness: drives coloquinte::RowLegalizer (compiled from /repo's working tree)
 //   rowleg gen enum MAXLEN MAXN MAXW WIN      -> case lines (exhaustive small bounds, b in {0,1})
 //   rowleg gen rand SEED COUNT                -> case lines (random, coordinates up to 2^22)
-//   rowleg run < cases                        -> one result line per case: "pl | costs"
+//   rowleg gen long SEED COUNT                -> case lines (rows of 31..200 cells + probes passing many bounds)
+//   rowleg run < cases                        -> one result line per case: "pl | costs | maxpassed badop"
+//      maxpassed = largest number of bounds a single getCost of the case had to pass (recomputed on a copy of the queue);
+//      badop = index of the first getCost after which the object's state (cumWidth_, constrainingPos_, multiset of
+//      bounds) differs from the state before it, -1 if none: the clause "prediction leaves the state unchanged" read
+//      directly on the C++ object
 // case line: "RL b e n (k w t)*"   k=0 push, k=1 getCost
 #include "vh.hpp"
+#include <queue>
+#define private public
 #include "place_detailed/row_legalizer.hpp"
+#undef private
 using namespace coloquinte;
 
 static void emit(long long b, long long e, const std::vector<long long> &w, const std::vector<long long> &t, const std::vector<int> &k) {
@@ -140,9 +148,26 @@ int main(int argc, char **argv) {
     try {
       RowLegalizer leg((int)b, (int)e);
       std::vector<long long> costs;
+      long long maxpassed = 0, badop = -1;
+      auto drain = [](std::priority_queue<RowLegalizer::Bound> q) {
+        std::vector<std::pair<int, int> > r;
+        while (!q.empty()) { r.push_back({q.top().absolutePos, q.top().weight}); q.pop(); }
+        return r;
+      };
       for (size_t i = 0; i < n; ++i) {
         int k = (int)v[3 + 3 * i]; int w = (int)v[4 + 3 * i]; int t = (int)v[5 + 3 * i];
-        costs.push_back(k == 0 ? leg.push(w, t) : leg.getCost(w, t));
+        if (k == 0) { costs.push_back(leg.push(w, t)); continue; }
+        auto before = drain(leg.bounds); auto cw = leg.cumWidth_; auto cp = leg.constrainingPos_;
+        { // how many bounds the descent passes (same loop condition as getDisplacement, on the drained copy)
+          long long used = cw.back(), tabs = (long long)t - used, slope = -(long long)w, cnt = 0;
+          for (auto &bd : before) {
+            if (!((slope < 0 && bd.first > tabs) || bd.first > (long long)e - used - w)) break;
+            slope += bd.second; ++cnt;
+          }
+          maxpassed = std::max(maxpassed, cnt);
+        }
+        costs.push_back(leg.getCost(w, t));
+        if (badop < 0 && (drain(leg.bounds) != before || leg.cumWidth_ != cw || leg.constrainingPos_ != cp)) badop = (long long)i;
       }
       auto pl = leg.getPlacement();
       leg.check();
@@ -150,6 +175,7 @@ int main(int argc, char **argv) {
       for (size_t i = 0; i < pl.size(); ++i) s << (i ? " " : "") << pl[i];
       s << " | ";
       for (size_t i = 0; i < costs.size(); ++i) s << (i ? " " : "") << costs[i];
+      s << " | " << maxpassed << " " << badop;
       res = s.str();
     } catch (std::exception &ex) { res = std::string("THROW ") + ex.what(); }
     printf("%s\n", res.c_str());
